@@ -14,6 +14,9 @@ type C01Case struct {
 	Doc  map[string]any `json:"doc"`
 	Pred *sq.E          `json:"pred"`
 	SQL  string         `json:"sql"`
+	// GoTypes: numeric columns of t (and of t2: s<i> shares the type of column i) that are handed to
+	// the engine as natively built Go values of that type instead of float64
+	GoTypes map[string]string `json:"go_types,omitempty"`
 }
 
 func init() {
@@ -21,7 +24,7 @@ func init() {
 		ID:    "C01",
 		Title: "WHERE keeps exactly the rows that satisfy the predicate, in source order",
 		Rule: "rapid draws a typed table t (2-5 columns of kind int/num/str/bool, some nullable, 0-10 rows from small per-column value pools, " +
-			"LIKE-hostile strings included), a second table t2 for IN-subqueries and a predicate tree (depth<=5) over = != <> < <= > >= / [NOT] IN / " +
+			"LIKE-hostile strings included; a third of the numeric columns are handed to the engine as native Go values of another numeric type: int*, uint*, float32), a second table t2 for IN-subqueries and a predicate tree (depth<=5) over = != <> < <= > >= / [NOT] IN / " +
 			"IN (SELECT..) / [NOT] BETWEEN / [NOT] LIKE / IS [NOT] NULL|TRUE|FALSE / AND OR NOT; oracle = independent reference filter " +
 			"(sequence equality) for p and NOT(p), plus engine-vs-engine rewrites (BETWEEN -> >= AND <=, NOT IN -> NOT(IN), NOT LIKE -> NOT(LIKE)). " +
 			"Non-trivial: >=2 rows and 0 < kept < n. Distinct = distinct JSON encodings of (doc, predicate).",
@@ -77,8 +80,27 @@ func genC01(t *rapid.T) any {
 	ps := &PredSpec{SubTable: "t2", SubCols: t2.Cols}
 	pred := genPred(t, tb, ps, rapid.IntRange(0, 5).Draw(t, "depth"), "p")
 	c := &C01Case{Doc: map[string]any{"t": tb.Rows, "t2": t2.Rows}, Pred: pred}
+	c.GoTypes = genGoTypes(t, tb.Cols, "gotypes")
+	for i, col := range tb.Cols {
+		if typ, ok := c.GoTypes[col.Name]; ok {
+			c.GoTypes[fmt.Sprintf("s%d", i)] = typ
+		}
+	}
 	c.SQL = "SELECT * FROM t WHERE " + sq.Render(pred, nil)
 	return c
+}
+
+// engineDoc is the document handed to the engine: a fresh copy, with the GoTypes columns converted.
+func (c *C01Case) engineDoc() map[string]any {
+	d := val.CopyMap(c.Doc)
+	if len(c.GoTypes) > 0 {
+		for _, key := range []string{"t", "t2"} {
+			if rows, ok := d[key].([]any); ok {
+				d[key] = applyGoTypes(rows, c.GoTypes)
+			}
+		}
+	}
+	return d
 }
 
 func refFilter(rows []any, pred *sq.E, env *sq.Env) ([]any, []any, error) {
@@ -167,13 +189,16 @@ func checkC01(c *C01Case) Result {
 	}
 	res.Labels = append(res.Labels, c.Pred.Kinds()...)
 	res.Labels = append(res.Labels, fmt.Sprintf("depth:%d", minInt(c.Pred.Depth(), 6)))
+	if len(c.GoTypes) > 0 {
+		res.Labels = append(res.Labels, "native-go-numeric-columns")
+	}
 	res.NonTrivial = len(rows) >= 2 && len(keep) > 0 && len(keep) < len(rows)
 
 	sql := c.SQL
 	if sql == "" {
 		sql = "SELECT * FROM t WHERE " + sq.Render(c.Pred, nil)
 	}
-	out := Run(val.CopyMap(c.Doc), sql, Opts{})
+	out := Run(c.engineDoc(), sql, Opts{})
 	res.Execs++
 	if !out.OK() {
 		res.Violation = fmt.Sprintf("%s\n  expected rows %s\n  got %s", sql, val.JSON(keep), out.Describe())
@@ -185,7 +210,7 @@ func checkC01(c *C01Case) Result {
 	}
 	// negation: complement, in source order
 	nsql := "SELECT * FROM t WHERE NOT (" + sq.Render(c.Pred, nil) + ")"
-	nout := Run(val.CopyMap(c.Doc), nsql, Opts{})
+	nout := Run(c.engineDoc(), nsql, Opts{})
 	res.Execs++
 	if !nout.OK() || !seqEqual(nout.Rows, drop) {
 		res.Violation = fmt.Sprintf("negation does not select the complement: %s\n  expected rows %s\n  got %s", nsql, val.JSON(drop), nout.Describe())
@@ -198,7 +223,7 @@ func checkC01(c *C01Case) Result {
 	// defining expansions, engine vs engine
 	if rw, changed := rewriteSugar(c.Pred); changed {
 		rsql := "SELECT * FROM t WHERE " + sq.Render(rw, nil)
-		rout := Run(val.CopyMap(c.Doc), rsql, Opts{})
+		rout := Run(c.engineDoc(), rsql, Opts{})
 		res.Execs++
 		if !rout.OK() || !seqEqual(rout.Rows, out.Rows) {
 			res.Violation = fmt.Sprintf("sugar and its expansion disagree:\n  %s -> %s\n  %s -> %s", sql, val.JSON(out.Rows), rsql, rout.Describe())
